@@ -70,8 +70,20 @@ func ruleSeqSingleAllocator(c *Ctx, r *Report) {
 							"the only increment: +1 in the allocator", "counter modified by an atomic add outside the allocator or by a step other than +1 (reuse or gap of record numbers)")
 					case "sync/atomic.StoreUint64":
 						// import path: value must come from State.sequenceNumber
-						ok := short(fn) == "(*dtls.State).generateInternalState" &&
-							allLeaves(c.Origins(x.Call.Args[1], 0), func(v ssa.Value) bool { return isFieldLoad(v, "dtls.State", "sequenceNumber") })
+						// (directly, or in a private helper whose every caller is the import function)
+						importOnly := short(fn) == "(*dtls.State).generateInternalState"
+						if !importOnly {
+							if sites, closed := c.staticCallers(fn); closed && len(sites) > 0 {
+								importOnly = true
+								for _, s := range sites {
+									if short(s.Fn) != "(*dtls.State).generateInternalState" {
+										importOnly = false
+									}
+								}
+							}
+						}
+						ok := importOnly &&
+							allLeaves(c.OriginsIP(x.Call.Args[1], 0), func(v ssa.Value) bool { return isFieldLoad(v, "dtls.State", "sequenceNumber") })
 						r.Check(ok, rule, key, c.ipos(in), "import of the serialised counter (State.sequenceNumber)", "counter overwritten outside the state-import path: record numbers can repeat")
 					default:
 						r.Bad(rule, key, c.ipos(in), "unexpected atomic operation on the record sequence counter")
